@@ -4,11 +4,14 @@ package main
 
 func boundsFor(prop, tier string) map[string]interface{} {
 	b := map[string]interface{}{
-		"integers":        "full width (8/16/32/64-bit bit-vectors), unrestricted",
-		"loop_unwinding":  "every loop entry counted per activation; bound 4096 (harnesses lower it); exceeding it on a feasible path is reported, never ignored",
-		"steps_per_path":  3000000,
-		"symbolic_sizes":  "lengths/capacities are concrete per path; a symbolic size is case-split over its feasible values (max 48) after an out-of-range feasibility query",
+		"integers":          "full width (8/16/32/64-bit bit-vectors), unrestricted",
+		"loop_unwinding":    "every loop entry counted per activation; bound 4096 (harnesses lower it); exceeding it on a feasible path is reported, never ignored",
+		"steps_per_path":    3000000,
+		"symbolic_sizes":    "lengths/capacities are concrete per path; a symbolic size is case-split over its feasible values (max 48) after an out-of-range feasibility query",
 		"solver_timeout_ms": map[string]int{"quick": 20000, "thorough": 120000}[tier],
+	}
+	if tier == "thorough" {
+		b["thorough_budget"] = "per harness variant 200000 paths / 4 minutes at the thorough bounds; a variant that exceeds it is retried at the intermediate bounds and otherwise explored completely at the quick bounds; every such reduction is listed in coverage.bounds_reduced"
 	}
 	if pb, ok := propBounds[prop]; ok {
 		for k, v := range pb {
@@ -25,6 +28,8 @@ var commonAssumptions = []string{
 	"symgo's implementation of Go semantics over SSA (validated on every run by replaying solver models natively and comparing assertions and observed bytes)",
 	"gc/amd64 struct layout as reported by go/types.SizesFor",
 	"z3 4.8.12 answers (sat models are re-checked by native replay; unsat is trusted)",
+	"float32<->float64 conversions are exact bit-vector definitions (round to nearest even, NaNs quieted as on amd64); no other float arithmetic on symbolic values",
+	"where code computes with a pointer's address as an integer (masks, shifts, packing) the address is 0xc000000000 + object id * 2^20 + offset: one arbitrary layout",
 	"stubs: fmt.Errorf returns an opaque non-nil error; sync.Pool.Get returns the most recently Put item (LIFO, the single-goroutine behaviour of the runtime) else New(); sync.Mutex is a flag; map iteration order is a rotation of insertion order; reflect is modelled from go/types for statically declared types",
 }
 
